@@ -13,6 +13,7 @@ var c16 = &Property{
 	Assume:  []string{"quantified over inputs only; the schedule dimension (fragmentation, parked handlers, stream interleaving) is exercised but is not what decides the property"},
 	Scenarios: []*Scenario{
 		{Name: "tcp-answer", Weight: 4, Bubble: true, Run: c16Tcp},
+		{Name: "sm-cea-dwa", Weight: 3, Bubble: true, Run: func(e *Env) { smaRun(e, "C16") }},
 	},
 }
 
